@@ -1208,7 +1208,11 @@ def check_call(
         )
         raise GuppyTypeInferenceError(err)
 
-    # Success implies that the substitution is closed
+    # The substitution must be closed, see `synthesize_call`
+    for arg, func_inp in zip(inputs, unquantified.inputs, strict=True):
+        arg_ty = func_inp.ty.substitute(subst)
+        if arg_ty.unsolved_vars:
+            raise GuppyTypeInferenceError(TypeInferenceError(arg, arg_ty))
     assert all(not t.unsolved_vars for t in subst.values())
     inst = check_all_solved(subst, free_vars, func_ty, node)
     subst = {v: t for v, t in subst.items() if v in ty.unsolved_vars}
